@@ -67,6 +67,16 @@ def _filedata_histories(p, data, want):
     y.segment_metadata = SegmentMetadata(RecordContinuationState(3), b"\x01\x02\x03")
     q2 = {**q1, "meta": {"state": 3, "data": "010203"}}
     eq(devs, "hist.decoded_then_metadata_set.pack", bytes(y.pack()), M.ref_pdu(q2))
+    # the large-file flag changed through the public header object, then a documented setter, then pack: offset width follows the flag
+    from spacepackets.cfdp import defs as cd
+
+    if p["offset"] < (1 << 32):
+        z = P.FileDataPdu.unpack(want) if len(data) % 2 else M.build_pdu(p)
+        z.pdu_header.file_flag = cd.LargeFileFlag(1 - p["conf"]["large"])
+        z.file_data = data
+        qf = {**p, "conf": {**p["conf"], "large": 1 - p["conf"]["large"]}}
+        eq(devs, "hist.file_flag_changed_through_header_then_setter.pack", bytes(z.pack()), M.ref_pdu(qf))
+        eq(devs, "hist.file_flag_changed_through_header_then_setter.packet_len", z.packet_len, len(M.ref_pdu(qf)))
     c_data = bytearray(data)
     meta = None
     c_meta = None
@@ -88,6 +98,12 @@ def _filedata_histories(p, data, want):
         want2 = M.ref_pdu(q)
         eq(devs, "hist.metadata_updated_in_place_then_assigned.pack", bytes(x.pack()), want2)
         eq(devs, "hist.metadata_updated_in_place_then_assigned.packet_len", x.packet_len, len(want2))
+        # ... and resized in place again, this time followed by the OTHER setter (file data): the length covers the live metadata
+        newer_md = new_md[: max(0, len(new_md) - 3)]
+        held.metadata = newer_md
+        x.file_data = data + b"\x42"
+        q3 = {**p, "data": (data + b"\x42").hex(), "meta": {"state": p["meta"]["state"], "data": newer_md.hex()}}
+        eq(devs, "hist.metadata_resized_in_place_then_file_data_set.pack", bytes(x.pack()), M.ref_pdu(q3))
     return devs
 
 
